@@ -191,6 +191,7 @@ TCall ==
                   ELSE IF ~Functional(M) THEN "mtime"
                   ELSE IF ~PlacementOK(e, a.s) THEN "placement" ELSE "etag", a, e) /\ FALSE
      ELSE IF ~FlagsOK(e.views) THEN Diag(l, "flags", a, e) /\ FALSE
+     ELSE IF ~e.refs_ok THEN Diag(l, "part-reference-count", a, e) /\ FALSE
      ELSE IF tk # {} THEN PrintT(ToJson([l |-> l, prog |-> prog, what |-> "deviation", tags |-> tk]))
      ELSE TRUE
   /\ S' = [a.s EXCEPT !.dev = Deviations] /\ res' = a.r /\ hist' = <<e.call>>
@@ -206,6 +207,7 @@ TFault ==
   /\ IF e.res.err = "" THEN Diag(l, "fault-succeeded", [r |-> NoRes, s |-> S], e) /\ FALSE
      ELSE IF LViews(e.views) # MViews(S) THEN Diag(l, "fault-left-trace", [r |-> NoRes, s |-> S], e) /\ FALSE
      ELSE IF ~FlagsOK(e.views) THEN Diag(l, "flags", [r |-> NoRes, s |-> S], e) /\ FALSE
+     ELSE IF ~e.refs_ok THEN Diag(l, "part-reference-count", [r |-> NoRes, s |-> S], e) /\ FALSE
      ELSE TRUE
   /\ UNCHANGED <<S, res, hist, etags, mtimes, prog, taken>> /\ l' = l + 1
 
